@@ -62,7 +62,10 @@ def model_input(g, targets, files, log, deps, hashes):
         if e.dyndep and e.dyndep not in dds: dds.append(e.dyndep)
     parsed = {}; extra = []; skip = None
     # the generator's `sethidden` step may add order-only inputs to the ground truth ahead of the next manifest rewrite
-    if 'build.ninja' in files and files['build.ninja'][1] != g.manifest(): skip = 'ground truth ahead of the manifest on disk'
+    # (for a split graph the statement may live in part.ninja: compare both files)
+    if ('build.ninja' in files and files['build.ninja'][1] != g.manifest()) or \
+       (g.is_split() and 'part.ninja' in files and files['part.ninja'][1] != g.manifest(part=True)):
+        skip = 'ground truth ahead of the manifest on disk'
     manifest_out = {}
     for k, e in enumerate(g.edges):
         for o in e.outs: manifest_out.setdefault(o, k)
